@@ -66,7 +66,7 @@ def oracle(name, ib, mb, meta):
         if b.op.startswith('failalloc'): faulty = 'clear' not in b.op
         if b.fault or not b.op.startswith('frame'): continue
         if faulty: continue
-        ctx, fr = frame_of(b); d = dec(fr + bytes(max(0, 36 - len(fr))))
+        ctx, fr = frame_of(b); d = dec(rxview(b, fr))
         if ctx == 0 and d['tos'] == 0 and d['opc'] == 2:
             n = (fr[32] << 8) | fr[33]
             for j in range(n):
@@ -94,7 +94,7 @@ def oracle(name, ib, mb, meta):
 def count(name, lines, ib, stats, meta):
     for b in ib:
         if b.op.startswith('frame 0'):
-            ctx, fr = frame_of(b); d = dec(fr + bytes(max(0, 36 - len(fr))))
+            ctx, fr = frame_of(b); d = dec(rxview(b, fr))
             if d['opc'] == 2:
                 stats['evaluations'] += 1
                 n = (fr[32] << 8) | fr[33]
